@@ -557,6 +557,19 @@ def ult(a, b):
         return const(1, 1)
     if amin >= bmax:
         return const(0, 1)
+    w = width(a)
+    if is_const(b):
+        c = cval(b)
+        if c & (c - 1) == 0:
+            # a < 2^k  <=>  the bits of a from k upwards are all zero (k = w-1: the sign-bit test of signed comparisons)
+            k = c.bit_length() - 1
+            return eqz(extract(a, k, w - k))
+    if is_const(a):
+        c = cval(a) + 1
+        if c & (c - 1) == 0 and c < (1 << w):
+            # 2^k - 1 < b  <=>  some bit of b from k upwards is set
+            k = c.bit_length() - 1
+            return bxor(eqz(extract(b, k, w - k)), const(1, 1))
     return full(node('ult', 1, (a, b)))
 
 
@@ -609,6 +622,20 @@ def ite(c, a, b):
     w = width(a)
     if w == 1:
         return bxor(b, and1(c, bxor(a, b)))
+    d = bxor(a, b) if w <= 32 else None
+    if d is not None and is_const(d):
+        # the two alternatives differ by a constant mask: result = b xor (c replicated on the mask bits) - pure segment surgery
+        m = cval(d)
+        parts = []
+        i = 0
+        while i < w:
+            bb = (m >> i) & 1
+            j = i
+            while j < w and ((m >> j) & 1) == bb:
+                j += 1
+            parts.append(concat([c] * (j - i)) if bb else const(0, j - i))
+            i = j
+        return bxor(b, concat(parts))
     # keep equal pieces outside, one ite node per maximal differing run
     bounds = boundaries([a, b])
     pa = _pieces(a, bounds)
